@@ -576,10 +576,10 @@ def run(tier):
     for h in sim:
         take(h, "simulated")
     # long histories: every menu item alone, 70..130 constructions (some defects need many draws), and mixed ones
-    cost = {"HAB": 0.21, "SB21": 0.07, "MBI": 0.04}
+    cost = {"SB21": 0.05, "MBI": 0.05, "HAB": 0.015}
     longs = []
     for it in (menu_base if quick else menu_full):
-        n = r.randrange(66, 73) if (quick and it[0] == "HAB") else r.randrange(70, 131)
+        n = r.randrange(70, 131)
         longs.append((homogeneous(it, n), "long-homogeneous"))
     if not quick:
         for it in menu_base:
